@@ -8,6 +8,7 @@ echo >> $out; echo "| seeded change | check | verdict | first witness |" >> $out
 for d in seeded/C*/; do
   id=$(basename $d); prop=$(echo $id | cut -c1-3)
   [ -n "${ONLY:-}" ] && case " $ONLY " in *" $id "*) ;; *) continue;; esac
+  if grep -q '"obsolete"' $d/meta.json 2>/dev/null; then echo "| $id | $prop | obsolete (see meta.json) | |" >> $out; echo "$id $prop obsolete"; continue; fi
   S=$(mktemp -d /tmp/seeded.XXXXXX)
   mkdir -p $S/tree && cp -r /repo/src $S/tree/src && find $S/tree -name __pycache__ -prune -exec rm -rf {} +
   if (cd $S/tree && git apply --whitespace=nowarn "$OLDPWD/$d/patch.diff" 2>/dev/null); then
